@@ -257,9 +257,18 @@ def makhlin(u):
     return np.array([t * t / (16 * d), (t * t - np.trace(m @ m)) / (4 * d)])
 
 
+N_GENERIC = 13
+
+
 def generic_points(gen):
     a, b, c = (abs(t) % (PI / 4) for t in gen)
-    return [(0.61, 0.37, 0.11), (0.7, 0.45, -0.3), (0.33, 0.29, 0.2), (gen[0], gen[1], gen[2]), (0.3, 0.2, 0.05)]
+    # the last two sit 2e-6 below the x = pi/4 face with z < 0: 200x the documented 1e-8 window in which z may be flipped
+    return [(0.61, 0.37, 0.11), (0.7, 0.45, -0.3), (0.33, 0.29, 0.2), (gen[0], gen[1], gen[2]), (0.3, 0.2, 0.05),
+            (PI / 4 - 2e-6, 0.5, -0.2), (PI / 4 - 2e-6, PI / 4 - 2e-6, -(PI / 4 - 2e-6)),
+            # 2e-3 away from class boundaries (just outside the 1e-3 ambiguity band): z=0 plane, x=y+|z| face from both
+            # sides, identity vertex, CNOT vertex, sqrt-iSWAP point
+            (0.4, 0.3, 0.002), (0.5, 0.3, 0.198), (0.5, 0.3, -0.202), (0.002, 0.0015, 0.0), (PI / 4 - 0.002, 0.0015, 0.0),
+            (PI / 8 + 0.002, PI / 8 - 0.0015, 0.0)]
 
 
 # ------------------------------------------------------------------------------------------------
@@ -440,7 +449,7 @@ def s2_descs(tier, what="main"):
     for (k1, k2) in pairs:
         d += [(0, a, b, c, k1, k2) for a in range(6) for b in range(6) for c in range(6)]
     for (k1, k2) in npairs:
-        d += [(3, a, 0, c, k1, k2) for a in range(5) for c in range(3)]
+        d += [(3, a, 0, c, k1, k2) for a in range(N_GENERIC) for c in range(3)]
     pres = (0, 1) if (q or what != "main") else (0, 1, 2)
     if what != "main" and q:
         pres = (0,)
